@@ -75,6 +75,8 @@ BINOP = {'Concat': (op.Concat, 'concat'), 'Either': (op.Either, 'either'), 'Encl
 def spellings(term):
     """The spellings that exist for the top operator of a term."""
     o = term[0]
+    if o in BINOP and len(term[1]) - 1 == 0:
+        return ['class']
     if o == 'Concat':
         n = len(term[1]) - 1
         sp = ['class', 'method']
@@ -121,13 +123,18 @@ def build(term, sp='class'):
         return build(t, sp if sp in ('class', 'method') else 'class')
 
     def R(t):          # receiver of a method call
-        return to_p(B(t))
+        r = to_p(B(t))
+        if not isinstance(r, Pregex):
+            raise SkipSpelling()          # an invalid argument cannot be the receiver of a method
+        return r
 
     if o in BINOP:
         args = [B(a) for a in term[1][1:]]
         cls_, meth = BINOP[o]
-        if sp == 'class':
+        if sp == 'class' or len(args) == 0:
             return cls_(*args)
+        if sp in ('method', 'method_left', 'operator') and not all(isinstance(a, (str, Pregex)) for a in args[:1 if sp == 'method' else 2]):
+            raise SkipSpelling()
         if sp == 'method':
             r = to_p(args[0])
             for a in args[1:]:
